@@ -30,27 +30,36 @@ func init() {
 
 func runMarshalSel(c *core.Ctx) []core.Obligation {
 	b := newOb(c, "R-MARSHALSEL")
-	fn := c.Lookup("json.constructCodec")
+	marshalSelSite(c, b, "json.constructCodec", "")
+	// byte-kind slice elements choose their marshaler in constructSliceCodec; slice elements are
+	// addressable, so the order is the canAddr one
+	marshalSelSite(c, b, "json.constructSliceCodec", ":slice-of-bytes")
+	return b.out
+}
+
+func marshalSelSite(c *core.Ctx, b *ob, fnName, suffix string) {
+	fn := c.Lookup(fnName)
 	if fn == nil {
-		b.addP([]string{"C01", "C02"}, core.Undecided, "marshalsel", "-", "json.constructCodec not found")
-		return b.out
+		b.addP([]string{"C01", "C02"}, core.Undecided, "marshalsel"+suffix, "-", fnName+" not found")
+		return
 	}
-	// start: the PointerTo(t) call
+	// start: the p := reflect.PointerTo(t) call; t is its argument
 	var start *ssa.Call
 	for _, blk := range fn.Blocks {
 		for _, in := range blk.Instrs {
-			if call, ok := in.(*ssa.Call); ok && calleeName(call.Common()) == "reflect.PointerTo" && len(call.Call.Args) == 1 && call.Call.Args[0] == ssa.Value(fn.Params[0]) {
+			if call, ok := in.(*ssa.Call); ok && calleeName(call.Common()) == "reflect.PointerTo" && len(call.Call.Args) == 1 && start == nil {
 				start = call
 			}
 		}
 	}
 	if start == nil {
-		b.addP([]string{"C01", "C02"}, core.Undecided, "marshalsel", c.FuncPos(fn), "p := reflect.PointerTo(t) not found in constructCodec")
-		return b.out
+		b.addP([]string{"C01", "C02"}, core.Undecided, "marshalsel"+suffix, c.FuncPos(fn), "p := reflect.PointerTo(t) not found in "+fnName)
+		return
 	}
+	tVal := start.Call.Args[0]
 	var canAddr *ssa.Parameter
 	for _, p := range fn.Params {
-		if p.Name() == "canAddr" || (p.Type().String() == "bool" && canAddr == nil) {
+		if p.Type().String() == "bool" && canAddr == nil {
 			canAddr = p
 		}
 	}
@@ -111,7 +120,7 @@ func runMarshalSel(c *core.Ctx) []core.Obligation {
 							continue
 						}
 						switch x.Common().Value {
-						case ssa.Value(fn.Params[0]):
+						case tVal:
 							env[x], known[x] = in.t[which], true
 						case ssa.Value(start):
 							env[x], known[x] = in.p[which], true
@@ -153,6 +162,10 @@ func runMarshalSel(c *core.Ctx) []core.Obligation {
 					}
 				case *ssa.If:
 					v, ok := get(x.Cond)
+					if !ok && suffix != "" {
+						// the selection is over once the function starts wrapping what it selected
+						return enc, dec, ""
+					}
 					if !ok {
 						return enc, dec, "a condition after p := reflect.PointerTo(t) is neither canAddr nor an Implements test of t or p (" + c.InstrPos(x) + ")"
 					}
@@ -183,6 +196,9 @@ func runMarshalSel(c *core.Ctx) []core.Obligation {
 		var in input
 		in.canAddr = mask&1 != 0
 		ok := true
+		if canAddr == nil && !in.canAddr {
+			continue // no canAddr parameter: the site is about addressable values
+		}
 		for i := 0; i < 4; i++ {
 			in.t[i] = mask&(1<<(1+uint(i))) != 0
 			in.p[i] = mask&(1<<(5+uint(i))) != 0
@@ -249,7 +265,7 @@ func runMarshalSel(c *core.Ctx) []core.Obligation {
 	for _, side := range []struct {
 		key, bad string
 		props    []string
-	}{{"marshalsel:encode", encBad, []string{"C01"}}, {"marshalsel:decode", decBad, []string{"C02"}}} {
+	}{{"marshalsel:encode" + suffix, encBad, []string{"C01"}}, {"marshalsel:decode" + suffix, decBad, []string{"C02"}}} {
 		switch {
 		case und != "":
 			b.addP(side.props, core.Undecided, side.key, c.FuncPos(fn), und)
@@ -259,7 +275,6 @@ func runMarshalSel(c *core.Ctx) []core.Obligation {
 			b.addP(side.props, core.Discharged, side.key, c.InstrPos(start), fmt.Sprintf("%d consistent outcomes of the Implements tests × canAddr select what encoding/json's order selects", n))
 		}
 	}
-	return b.out
 }
 
 func implNames(v [4]bool) string {
